@@ -11,6 +11,7 @@ import re
 
 from asyncio_taskpool import SimpleTaskPool, TaskPool
 from asyncio_taskpool.control.parser import ControlParser
+from asyncio_taskpool.control.server import UnixControlServer
 from asyncio_taskpool.control.session import ControlSession
 from asyncio_taskpool.internals.helpers import resolve_dotted_path
 
@@ -20,7 +21,10 @@ logging.getLogger("asyncio_taskpool").addHandler(logging.NullHandler())
 logging.getLogger("asyncio_taskpool").propagate = False     # the library *logs* conversion failures; that is not printing
 
 CLASSES = {"TaskPool": TaskPool, "SimpleTaskPool": SimpleTaskPool,
-           "PlusPool": control_classes.PlusPool, "SimplePlus": control_classes.SimplePlus}
+           "PlusPool": control_classes.PlusPool, "SimplePlus": control_classes.SimplePlus,
+           # witness classes of known findings (never part of a sweep)
+           "HelpParamPool": control_classes.HelpParamPool, "UnderscoreParamPool": control_classes.UnderscoreParamPool,
+           "CommandParamPool": control_classes.CommandParamPool}
 WIDTHS = [-5, 0, 1, 20, 80, 10 ** 6]
 SPINS = 60
 
@@ -358,25 +362,41 @@ class MemWriter:
         self.closed = True
 
 
-class FakeServer:
-    client_class_name = "MemClient"
+class MemServer(UnixControlServer):
+    """the library's own server object for sessions over in-memory streams: never started (no socket is opened, the path
+    is never touched), it only says that it serves.  Every session on one pool shares one of these, as the sessions of a
+    real server do — whatever the sessions coordinate through their server is in force here as well."""
 
     def __init__(self, pool):
-        self.pool = pool
+        super().__init__(pool, socket_path="/nonexistent/verif-mem-server.sock")
         self.serving = True
 
     def is_serving(self):
         return self.serving
 
 
+_servers = {}
+
+
+def server_of(pool):
+    key = id(pool)
+    if key not in _servers or _servers[key][0] is not pool:
+        _servers[key] = (pool, MemServer(pool))
+    return _servers[key][1]
+
+
+def forget_servers():
+    _servers.clear()
+
+
 class MemSession:
     """a real ControlSession over in-memory streams"""
 
-    def __init__(self, pool):
+    def __init__(self, pool, own_server=False):
         self.pool = pool
         self.reader = asyncio.StreamReader()
         self.writer = MemWriter()
-        self.server = FakeServer(pool)
+        self.server = MemServer(pool) if own_server else server_of(pool)
         self.session = ControlSession(self.server, self.reader, self.writer)
         self.task = None
 
